@@ -48,9 +48,10 @@ impl<const N: usize> Context<N> {
         set.get(nonce).is_some()
     }
 
-    pub fn set_nonce(&self, nonce: [u8; N]) {
+    /// Records the salt; returns false if it was already recorded (test and set under one lock).
+    pub fn set_nonce(&self, nonce: [u8; N]) -> bool {
         let mut set = self.nonce_cache.lock().unwrap_or_else(|e| e.into_inner());
-        set.insert(nonce, ());
+        set.insert(nonce, ()).is_none()
     }
 }
 
@@ -204,7 +205,9 @@ impl<const N: usize> AEADCipherCodec<N> {
         };
         let length = header.get_u16() as usize;
         if _src.remaining() >= length + tag_size {
-            context.set_nonce(salt);
+            if !context.set_nonce(salt) {
+                bail!("detected repeated nonce salt {:?}", salt);
+            }
             let position = _src.position();
             let src = _src.into_inner();
             src.advance(position as usize);
